@@ -33,14 +33,17 @@ What is proved here (for all inputs unless the name says otherwise):
   `C08_sound_witness` (a diamond below one root: `{a,b,d}` is accepted although `d`'s supertype `c` is missing),
   `C08_complete_witness` (a single non-abstract root written in external mapping is refused).
 
-* further down (rounds 6–8, see the doc comment of each): `C08_no_crash`, `C08_sound_complete_partial` (OR-free fragment),
-  `C08_accept_contains_derivation` (soundness, requirements half, every OrList nesting and every request),
-  `C08_odometer` / `C08_retry_terminates` / `C08_matches_terminates` / `C08_supports_answers_partial` (termination),
-  `C08_collectOf_headWF` / `C08_collectOf_succeeds` (the construction), `C08_eval_legal_partial` (tree meaning ⟷ `Legal` on
-  forests), `C08_sort_correct`.
+* further down (rounds 6–8, see the doc comment of each): **`C08_accepts_iff_legal_partial`** (the composition: on
+  single-supertype schemas with distinct leaves the matcher model accepts an instance of ≥ 2 parts iff `Spec.Legal`),
+  `C08_sound_partial` (soundness, every OrList nesting), `C08_complete_partial` / `C08_sound_complete_oneof_partial`
+  (completeness on distinct leaves), `C08_sound_complete_partial` (OR-free fragment), `C08_accept_contains_derivation`,
+  `C08_no_crash`, `C08_odometer` / `C08_retry_terminates` / `C08_matches_terminates` / `C08_supports_answers*`
+  (termination), `C08_collectOf_headWF` / `C08_collectOf_succeeds` (the construction), `C08_eval_legal_partial` (tree
+  meaning ⟷ `Legal` on forests), `C08_sort_correct`.
 
-Not proved (tested exhaustively instead, see notes/C08.md): exactness of `supports` on trees with OrLists (nothing beyond one
-derivation is accepted; completeness of the backtracking), `evalB ∘ collectOf` ⟷ `Legal` outside forests (false there).
+Not proved (tested exhaustively instead, see notes/C08.md): completeness of `supports` on trees with repeated leaf names
+(non-abstract sub-supertypes), anything beyond no-crash/termination/the subset half for requests with multiply-inheriting
+members (soundness and completeness are false there), `evalB ∘ collectOf` ⟷ `Legal` outside forests (false there).
 -/
 namespace StepModel.Complex
 open StepModel.Generated Match
